@@ -921,7 +921,8 @@ type pushClientAction struct {
 }
 
 type changePermissionsAction struct {
-	kind string
+	group *group.Group
+	kind  string
 }
 
 type permissionsChangedAction struct{}
@@ -1220,6 +1221,10 @@ func handleAction(c *webClient, a any) error {
 			}
 		}
 	case changePermissionsAction:
+		if c.group == nil || c.group != a.group {
+			// the client has left the group in the meantime
+			return nil
+		}
 		switch a.kind {
 		case "op":
 			c.permissions = addnew("op", c.permissions)
@@ -1919,7 +1924,7 @@ func handleClientMessage(c *webClient, m clientMessage) error {
 					"this is not a real user",
 				))
 			}
-			target.action(changePermissionsAction{m.Kind})
+			target.action(changePermissionsAction{g, m.Kind})
 		case "identify":
 			if !slices.Contains(c.permissions, "op") {
 				return c.error(group.UserError("not authorised"))
